@@ -951,8 +951,8 @@ def check(rep, tier, seed, variant="hooks", n_sre=None, n_ex=None):
     b = B.ensure(variant)
     rep.builds.add(variant)
     quick = tier == "quick"
-    n_sre = n_sre if n_sre is not None else (1400 if quick else 100000)
-    n_ex = n_ex if n_ex is not None else (20 if quick else 2500)
+    n_sre = n_sre if n_sre is not None else (1400 if quick else 30000)
+    n_ex = n_ex if n_ex is not None else (20 if quick else 800)
 
     # subject pools (Scheme side: one list per pool, defined once per process)
     pools = {}
@@ -1006,6 +1006,7 @@ def check(rep, tier, seed, variant="hooks", n_sre=None, n_ex=None):
     by_id = {it["id"]: it for it in items_all}
 
     walls = []
+    allv = []
     for outs, hp, ghost in bulk + exh + slow_out:
         if ghost:
             rep.violation({"kind": "ghost-output"}, {"trailing": ghost})
@@ -1022,11 +1023,25 @@ def check(rep, tier, seed, variant="hooks", n_sre=None, n_ex=None):
                 rep.case((it["theme"], skeleton(it["e"], 3)), n=o["pairs"])
                 rep.count("sres_observed", 1)
             for sig, wit in o["violations"]:
-                rep.violation(sig, wit)
+                allv.append((sig, wit))
             for reason, detail in o["inconc"]:
                 rep.inconc(reason, detail)
             for k, v in o["stats"].items():
                 rep.count(k, v)
+    # a real matcher defect shows up under hundreds of operator combinations: record every explained / error
+    # signature, but of the unexplained mismatches only the 20 signatures with the smallest witness SRE
+    groups = {}
+    for sig, wit in allv:
+        if sig.get("cause") == "unexplained":
+            groups.setdefault(json.dumps(sig, sort_keys=True), []).append((sig, wit))
+        else:
+            rep.violation(sig, wit)
+    ranked = sorted(groups.values(), key=lambda g: min(len(w.get("sre", "")) for _, w in g))
+    for g in ranked[:20]:
+        for sig, wit in sorted(g, key=lambda x: len(x[1].get("sre", "")))[:5]:
+            rep.violation(sig, wit)
+    if len(ranked) > 20:
+        rep.extra["unexplained_signatures_not_recorded"] = len(ranked) - 20
     for it in items[:4] + items[ex_start:ex_start + 1]:
         rep.sample({"sre": it["sre"], "theme": it["theme"], "subjects": len(it["subjects"]),
                     "first_subjects": it["subjects"][41:45]})
